@@ -316,12 +316,19 @@ func histBFS(c *core.Ctx, sb *sandbox, res *core.ShardResult, wl *core.WLog) {
 var randFiles = []string{"a.txt", "b.txt", "sub/s.txt", "sub/deep/d.txt", ".h.txt", "sub/.h.txt", "c.md"}
 var randGlobs = []string{"*.txt", "**/*.txt", "sub/*.txt", "sub/**", "*", "**/*.md", "*.{txt,md}"}
 
+var reservedLooking = []string{"last", "cache", "version", "tasks", "digest", "spok", "all", "state", "files", "sum", "index", "meta", "previous", "history", "default", "clean_all"}
+
 func randShape(r *core.Rng) hshape {
 	if r.Chance(35) {
 		return core.Pick(r, histShapes)
 	}
 	n := r.Range(1, 3)
 	names := []string{"A", "B", "C"}
+	if r.Chance(40) {
+		// names a tool might use for bookkeeping of its own
+		names = append([]string{}, reservedLooking...)
+		core.Shuffle(r, names)
+	}
 	s := hshape{Name: "random"}
 	used := map[string]bool{}
 	for i := 0; i < n; i++ {
